@@ -179,6 +179,13 @@ def irregular_cases(rng, tier):
     for size in (2.0e3, 4.0e4):
         cases.append(dict(kind=f'domain of size {size:g} in coordinate units', center=(0.05 * size, -0.03 * size), pts=[(size * x, size * y) for x, y in ring],
                           vals=[math.cos(2.0 * i) + 0.3 for i in range(m)], property_only=True, relative=True))
+    # control-point coordinates given as something other than Python floats: single-precision numpy scalars, and 0-d views of a tensor
+    # that the caller recycles after the condition has been built (the coordinates are data of the condition from then on)
+    ring2 = [(round(x * 16) / 16.0, round(y * 16) / 16.0) for x, y in ring]          # representable in single precision
+    cases.append(dict(kind='coordinates given as numpy float32 scalars', center=(0.0625, -0.03125), pts=ring2, vals=[math.cos(2.0 * i) + 0.3 for i in range(m)],
+                      property_only=True, loc_type='np32'))
+    cases.append(dict(kind='coordinates given as rows of a tensor that is overwritten afterwards', center=(0.0625, -0.03125), pts=ring2,
+                      vals=[math.sin(1.0 + i) for i in range(m)], property_only=True, loc_type='tensor-rows'))
     # closed curves sampled with the closing point included: the last control point is a round-off copy of the first one (documented
     # to be dropped), sitting on the 0 / 2 pi seam of the angular order
     for n_, rx, ry in ((36, 1.0, 1.0), (20, 1.5, 0.8)):
@@ -229,7 +236,13 @@ def extra_phase(rep, tier, seed):
                 for cp, p, v in zip(dcps, case['pts'], case['vals']):
                     cp.loc, cp.val = p, v
             else:
-                dcps = [pde.DirichletControlPoint(loc=p, val=v) for p, v in zip(case['pts'], case['vals'])]
+                if case.get('loc_type') == 'np32':
+                    dcps = [pde.DirichletControlPoint(loc=(np.float32(p[0]), np.float32(p[1])), val=v) for p, v in zip(case['pts'], case['vals'])]
+                elif case.get('loc_type') == 'tensor-rows':
+                    table = torch.tensor(case['pts'], dtype=torch.float64)
+                    dcps = [pde.DirichletControlPoint(loc=table[i], val=v) for i, v in enumerate(case['vals'])]
+                else:
+                    dcps = [pde.DirichletControlPoint(loc=p, val=v) for p, v in zip(case['pts'], case['vals'])]
             shared = list(dcps)      # the caller's list: reused below for a second condition, as a user comparing centres would
             cond = pde.CustomBoundaryCondition(center_point=pde.Point(case['center']), dirichlet_control_points=shared)
         except Exception as e:
@@ -237,6 +250,8 @@ def extra_phase(rep, tier, seed):
             continue
         finally:
             np.linalg.solve = orig
+        if case.get('loc_type') == 'tensor-rows':
+            table.zero_()           # the caller recycles its table
         # a second condition built from the SAME list with another (valid) centre, before the first one is used:
         # each condition must honour all control points whatever else has been built from that list
         try:
@@ -470,6 +485,24 @@ def runtime_checks():
                                     violated='does not select the last output unit'))
             except Exception as e:
                 bad.append(dict(case='output unit -1 on a shared network', condition=name, outputs=n_out, error=f'{type(e).__name__}: {e}'))
+    # the initial time is a public attribute: a condition that has been evaluated and is then moved to a later initial time (time marching)
+    # takes its initial profile - and the compatibility terms built from it - at the NEW initial time
+    for mode, kw in (('DD', dict(x_min_val=lambda t: torch.sin(t), x_max_val=lambda t: torch.cos(t))),
+                     ('DN', dict(x_min_val=lambda t: torch.sin(t), x_max_prime=lambda t: 0.3 * t))):
+        try:
+            u0 = lambda x: torch.sin(0.0 * x + 0.4) * (1 - x) + torch.cos(0.0 * x + 0.4) * x if mode == 'DD' else torch.sin(0.0 * x + 0.4) + 0.3 * 0.4 * x
+            cond = IBVP1D(0., 1., 0.0, u0, **kw)
+            netq = FCNN(2, 1, hidden_units=(5,))
+            xs_ = torch.rand(n, 1, requires_grad=True)
+            cond.enforce(netq, xs_, torch.zeros(n, 1, requires_grad=True))
+            cond.t_min = 0.4
+            got = cond.enforce(netq, xs_, torch.full((n, 1), 0.4, requires_grad=True)).detach()
+            want = u0(xs_).detach()
+            if not torch.allclose(got, want, rtol=0, atol=1e-6):
+                bad.append(dict(case='IBVP1D evaluated, then t_min re-assigned (time marching)', mode=mode, violated='u(x, t_min) is not the initial profile at the '
+                                'new initial time', max_abs_error=float((got - want).abs().max())))
+        except Exception as e:
+            bad.append(dict(case='IBVP1D evaluated, then t_min re-assigned', mode=mode, error=f'{type(e).__name__}: {e}'))
     # double-precision coordinates and network in a session whose default precision is single (the usual GPU set-up, checked in double):
     # the edges are reproduced to DOUBLE rounding, on boxes whose bounds are not single-precision numbers
     import math
